@@ -314,4 +314,71 @@ theorem trivialDiff_valid : ∀ n m eq, validScript n m eq (trivialDiff n m eq) 
     · have : (0 == m) = false := by simp; omega
       simp [hn, hm, validFrom, Range.isDelete, Range.isInsert, this]
 
+
+/-- Length of the longest common prefix under `eq` (position by position). -/
+def commonPrefix (eq : Nat → Nat → Bool) (n m : Nat) : Nat → Nat → Nat
+  | 0, i => i
+  | f + 1, i => if i < n ∧ i < m ∧ eq i i = true then commonPrefix eq n m f (i + 1) else i
+
+theorem commonPrefix_spec (eq : Nat → Nat → Bool) (n m : Nat) : ∀ (f i : Nat), i ≤ n → i ≤ m →
+    (∀ j, j < i → eq j j = true) →
+    i ≤ commonPrefix eq n m f i ∧ commonPrefix eq n m f i ≤ n ∧ commonPrefix eq n m f i ≤ m ∧
+    ∀ j, j < commonPrefix eq n m f i → eq j j = true := by
+  intro f
+  induction f with
+  | zero => intro i h1 h2 h3; exact ⟨Nat.le_refl _, h1, h2, h3⟩
+  | succ f ih =>
+    intro i h1 h2 h3
+    unfold commonPrefix
+    by_cases hc : i < n ∧ i < m ∧ eq i i = true
+    · simp only [hc, and_self, if_true]
+      obtain ⟨a, b, c, d⟩ := ih (i + 1) (by omega) (by omega) (by
+        intro j hj
+        by_cases e : j = i
+        · subst e; exact hc.2.2
+        · exact h3 j (by omega))
+      exact ⟨by omega, b, c, d⟩
+    · simp only [hc, if_false]
+      exact ⟨Nat.le_refl _, h1, h2, h3⟩
+
+/-- A simple valid script that keeps the common prefix: used for the examples (the theorems hold
+for every valid script, the driver runs the Myers port). -/
+def prefixDiff : Diff := fun n m eq =>
+  let k := commonPrefix eq n m (min n m) 0
+  (if k = 0 then [] else [⟨0, k, 0, k⟩]) ++ (if k < n then [⟨k, n, k, k⟩] else []) ++
+    (if k < m then [⟨n, n, k, m⟩] else [])
+
+theorem prefixDiff_valid : ∀ n m eq, validScript n m eq (prefixDiff n m eq) = true := by
+  intro n m eq
+  unfold prefixDiff validScript
+  obtain ⟨_, hkn, hkm, hall⟩ := commonPrefix_spec eq n m (min n m) 0 (by omega) (by omega) (by intro j hj; omega)
+  generalize commonPrefix eq n m (min n m) 0 = k at *
+  simp only
+  have tail : validFrom eq n m ((if k < n then [⟨k, n, k, k⟩] else []) ++
+      (if k < m then [⟨n, n, k, m⟩] else [])) k k = true := by
+    by_cases h1 : k < n
+    · by_cases h2 : k < m
+      · have e1 : (k == m) = false := by simp; omega
+        simp [h1, h2, validFrom, Range.isDelete, Range.isInsert, e1]; omega
+      · have hm : k = m := by omega
+        subst hm
+        simp [h1, validFrom, Range.isDelete]; omega
+    · have hn : k = n := by omega
+      subst hn
+      by_cases h2 : k < m
+      · have e1 : (k == m) = false := by simp; omega
+        simp [h2, validFrom, Range.isDelete, Range.isInsert, e1]; omega
+      · have hm : k = m := by omega
+        subst hm
+        simp [validFrom]
+  by_cases hk : k = 0
+  · subst hk
+    simpa using tail
+  · have e0 : (0 == k) = false := by simp; omega
+    simp only [hk, if_false, List.cons_append, List.nil_append, List.append_assoc]
+    unfold validFrom
+    simp only [Range.isDelete, Range.isInsert, e0, Bool.false_eq_true, if_false, beq_self_eq_true, Bool.true_and,
+      Nat.zero_le, decide_true, Nat.sub_zero, Nat.zero_add, Bool.and_eq_true, List.all_eq_true, List.mem_range]
+    exact ⟨fun i hi => hall i hi, tail⟩
+
 end NA.Nsx
